@@ -271,11 +271,29 @@ def run(F, rep, tier):
                 rep.ok('R8.3', '%s %s' % (fn, ks), 'calls %s' % [x for x in names if x in ('cmp_nint_f64', 'reverse')])
             else:
                 rep.viol('R8.3', '%s|%s|mirror' % (fn, ','.join(ks)), 'arm %s must call %s and not %s; calls %s' % (ks, must, mustnot, names), b.loc(0))
+        ff = kinds.get(('Float', 'Float'))
+        if ff is not None:
+            if 'partial_cmp' in ff and 'total_cmp' not in ff:
+                rep.ok('R8.3', '%s (Float, Float) op' % fn, 'f64::partial_cmp (IEEE order: -0.0 == 0.0, NaN unordered)')
+            else:
+                rep.viol('R8.3', '%s|Float,Float|op' % fn, 'two floats are not compared with f64::partial_cmp (%s): total_cmp orders -0.0 below 0.0 and gives NaN a position, contradicting ==' % [x for x in ff if 'cmp' in x], b.loc(0))
         for ks in (('Int', 'Int'), ('Float', 'Float')):
             if ks in kinds:
                 rep.ok('R8.3', '%s %s' % (fn, ks), 'present')
             else:
                 rep.viol('R8.3', '%s|%s|missing' % (fn, ','.join(ks)), 'arm %s missing' % (ks,), b.loc(0))
+
+    for fn in ('<nnum::NNum as std::cmp::PartialOrd>::partial_cmp', '<nnum::NNum as std::cmp::PartialEq>::eq'):
+        if not F.has_fn(fn):
+            rep.error('R8.3', 'missing ' + fn)
+            continue
+        b = F.body(fn)
+        proj = [c for c in b.calls if c.target.endswith('project_to_reals')]
+        lvl = [m for m in F.matches.get(fn, []) if 'nnum::NNum' in m['scrut_ty'] and m['kind'] in ('Normal', 'Let')]
+        if len(proj) == 2 and not lvl and not any(s_[0] == 'a' and s_[2][0] == 'discr' for i in b.reach for s_ in b.stmts(i)):
+            rep.ok('R8.3', fn, 'compares the (re, im) projections of both operands, no special case per level')
+        else:
+            rep.viol('R8.3', fn + '|level-special-case', '%s does not compare the (re, im) projections uniformly (project_to_reals calls %d, level matches %d): a complex number and a real with the same real part become neither <, == nor >' % (fn, len(proj), len(lvl)), b.loc(0))
 
     # ---------------- R8.4
     rep.rule('R8.4', 'ncmp turns None into an error in both comparable arms and rejects mixed kinds; sorted records an error on None')
